@@ -202,16 +202,35 @@ func columnA(c CaseA, fill []byte, v int) (ref.Column, ref.Cell) {
 		}
 		return ref.ColSet("x", c.A), ref.VSet(c.A, mask)
 	case "decimal":
+		if v == 2 {
+			// the negative all-nines value: every byte of the positive one inverted
+			cell := ref.CGDecimal(c.A, c.B, true)
+			neg := make([]byte, len(cell.Raw))
+			for i, b := range cell.Raw {
+				neg[i] = ^b
+			}
+			return ref.ColDecimal("x", c.A, c.B), ref.Cell{Raw: neg}
+		}
 		return ref.ColDecimal("x", c.A, c.B), ref.CGDecimal(c.A, c.B, v == 1)
 	case "timestamp2":
+		if v == 2 {
+			// the zero timestamp (all bytes zero) in every precision
+			return ref.ColFsp(ref.TTimestamp2, "x", c.A), ref.CGTimestamp2(c.A, 0, 0)
+		}
 		return ref.ColFsp(ref.TTimestamp2, "x", c.A), ref.CGTimestamp2(c.A, uint32(1500000000+v), ref.CGFracMax(c.A)*uint32(v))
 	case "datetime2":
+		if v == 2 {
+			return ref.ColFsp(ref.TDateTime2, "x", c.A), ref.VDateTime2(c.A, 0, 0, 0, 0, 0, 0, 0)
+		}
 		micro := 0
 		if v == 1 {
 			micro = ref.TruncMicro(c.A, 999999)
 		}
 		return ref.ColFsp(ref.TDateTime2, "x", c.A), ref.VDateTime2(c.A, 2017+v, 12, 31, 23, 59, 58+v, micro)
 	case "time2":
+		if v == 2 {
+			return ref.ColFsp(ref.TTime2, "x", c.A), ref.VTime2(c.A, true, 838, 59, 59, 0)
+		}
 		return ref.ColFsp(ref.TTime2, "x", c.A), ref.CGTime2(c.A, 23*v, 59, 59, ref.CGFracMax(c.A)*uint32(v))
 	case "bit":
 		pat := uint64(0xA5A5A5A5A5A5A5A5)
@@ -250,6 +269,9 @@ func columnA(c CaseA, fill []byte, v int) (ref.Column, ref.Cell) {
 		case ref.TDateTime:
 			return ref.ColPlain(t, "x"), ref.VDateTimeOld(2017, 12, 31, 23, 59, 58+v)
 		case ref.TTimestamp:
+			if v == 2 {
+				return ref.ColPlain(t, "x"), ref.CGTimestampOld(0)
+			}
 			return ref.ColPlain(t, "x"), ref.CGTimestampOld(uint32(1500000000 + v))
 		}
 	}
@@ -336,11 +358,28 @@ func evalA(c CaseA) (m rowdec.Mismatch, event []byte) {
 	t.Cols = append(t.Cols, col)
 	r0 = append(r0, c0)
 	r1 = append(r1, c1)
+	// a column behind the cell: a decoder that consumes too little or too much
+	// of the cell reads this one from the wrong place
+	t.Cols = append(t.Cols, ref.ColVarchar("tail", 20))
+	r0 = append(r0, ref.VVarchar(20, []byte("tail-0")))
+	r1 = append(r1, ref.VVarchar(20, []byte("tail-1")))
 	tm, why := w.TableMap(t)
 	if why != "" {
 		return rowdec.Mismatch{Class: "tablemap", Why: why}, nil
 	}
-	e := ref.RowsEvent{Kind: ref.RowWrite, Table: t, Flags: 1, Rows: []ref.RowChange{{After: r0}, {After: r1}}}
+	rows := []ref.RowChange{{After: r0}, {After: r1}}
+	switch c.Family {
+	case "decimal", "timestamp2", "datetime2", "time2", "fixed":
+		// a third row with the special value of the family (negative, zero)
+		_, c2 := columnA(c, fill, 2)
+		r2 := ref.Image{}
+		if c.Lead {
+			r2 = append(r2, ref.VInt(ref.TTiny, 7, false))
+		}
+		r2 = append(r2, c2, ref.VVarchar(20, []byte("tail-2")))
+		rows = append(rows, ref.RowChange{After: r2})
+	}
+	e := ref.RowsEvent{Kind: ref.RowWrite, Table: t, Flags: 1, Rows: rows}
 	m = rowdec.Check(w, tm, e, rowdec.Opt{})
 	if m.Bad() {
 		event = w.EncodeRows(e)
